@@ -505,6 +505,23 @@ def _run(case, out, rig, axolotl):
                     if not (mode == "error" and "Sent keys were not accepted" in str(e)):
                         out.fail("internal", "internal:reply_%s_raises:%s" % (mode, type(e).__name__), {"step": step, "error": repr(e)[:300]})
                         return out
+                rtag, rattrs, rcontent = req["tree"]
+                if mode != "error" and rattrs.get("xmlns") == "encrypt" and rattrs.get("type") == "set":
+                    # the confirmation belongs to this upload: the one-time keys this very request carried are the ones that count as
+                    # published from now on (several uploads may be outstanding, confirmed in any order)
+                    ids = [int.from_bytes(f[2], "big") for c in (rcontent or []) if c[0] == "list" for k in (c[2] or []) for f in (k[2] or [])
+                           if f[0] == "id" and isinstance(f[2], (bytes, bytearray))]
+                    mgr = None
+                    for li in (1, 2, 3):
+                        mgr = getattr(rig.stack.getLayer(li), "_manager", None) or mgr
+                    if mgr is not None and ids:
+                        unsent = set(r.getId() for r in mgr.load_unsent_prekeys())
+                        left = sorted(set(ids) & unsent)
+                        out.label("internal:key_upload_confirmed")
+                        if left:
+                            out.fail("internal", "internal:key_upload_confirmed_but_its_keys_still_count_as_unpublished",
+                                     {"step": step, "request": req["id"], "keys_of_the_request": len(ids), "still_unsent": left[:6]})
+                            return out
             elif req["last_reply"] is not None:
                 special = True
                 out.label("internal_replay")
@@ -700,6 +717,15 @@ def _enum_keepalive():
                                                            ["reply", 1, "error", err]]}
 
 
+def _enum_uploads_outstanding():
+    """two and three key uploads outstanding at once, confirmed in every order (and one refused)"""
+    import itertools
+    for n in (2, 3):
+        for order in itertools.permutations(range(n)):
+            yield {"sub": "history", "axolotl": True, "ops": [["count"]] * n + [["ireply", i, "result"] for i in order]}
+    yield {"sub": "history", "axolotl": True, "ops": [["count"], ["count"], ["ireply", 1, "error"], ["ireply", 0, "result"]]}
+
+
 def plan(tier):
     quick = tier == "quick"
     strategies = [("histories", script_strategy(), 40 if quick else 3000), ("media_requests", media_strategy(), 3 if quick else 100),
@@ -709,7 +735,7 @@ def plan(tier):
     return {
         "shards": 16,
         "enumerations": [("keepalive_between_application_requests", _enum_keepalive), ("text_and_bytes_forms_of_request_content", _enum_argument_forms),
-                         ("many_requests_outstanding", _enum_many_outstanding)],
+                         ("many_requests_outstanding", _enum_many_outstanding), ("key_uploads_outstanding", _enum_uploads_outstanding)],
         "strategies": strategies,
         "shrink": "hypothesis",
         "budget_s": 200 if quick else 1800,
@@ -717,3 +743,4 @@ def plan(tier):
     }
 
 RULE += (' Also: text and bytes forms of request content x result / error (enumerated); 130 requests outstanding at once, all answered afterwards.')
+RULE += (" A confirmed key upload (library-internal request) must have published the one-time keys that very request carried, also with several uploads outstanding and confirmed in any order.")
